@@ -141,20 +141,35 @@ func structFieldsAt(t reflect.Type, depth int) []sfield {
 	if depth > 0 {
 		return out
 	}
-	// the shallowest field of a JSON name wins (the corpus has one same-name shadowing type; ties are not generated)
-	best := map[string]sfield{}
+	// encoding/json's dominance rule per JSON name: the shallowest occurrence wins; several occurrences at that depth cancel
+	// each other - the member does not exist at all. (Ties where exactly one occurrence is tagged are the pinned class KF-C04-1
+	// and are not in the corpus.)
+	minDepth := map[string]int{}
+	count := map[string]int{}
 	var order []string
 	for _, f := range out {
-		if b, ok := best[f.name]; !ok {
-			best[f.name] = f
+		d, ok := minDepth[f.name]
+		switch {
+		case !ok:
+			minDepth[f.name], count[f.name] = f.depth, 1
 			order = append(order, f.name)
-		} else if f.depth < b.depth {
-			best[f.name] = f
+		case f.depth < d:
+			minDepth[f.name], count[f.name] = f.depth, 1
+		case f.depth == d:
+			count[f.name]++
 		}
 	}
 	dedup := make([]sfield, 0, len(order))
 	for _, n := range order {
-		dedup = append(dedup, best[n])
+		if count[n] != 1 {
+			continue
+		}
+		for _, f := range out {
+			if f.name == n && f.depth == minDepth[n] {
+				dedup = append(dedup, f)
+				break
+			}
+		}
 	}
 	return dedup
 }
